@@ -128,7 +128,7 @@ PROPS = {
     },
     "C14": {
         "title": "Data files are append-only and immutable, with ids that only grow",
-        "rules": [k1.w1_file_mutation_api, controls.control("W1"), k1.w7_recovery_read_only, k2.p14_rollover_test, k2m.p5_merge_outputs_before_unlink, k2m.s7_s8_merge_sets, k5.o1_recovery_order],
+        "rules": [k1.w1_file_mutation_api, controls.control("W1"), k1.w7_recovery_read_only, k2.p14_rollover_test, k2m.p5_merge_outputs_before_unlink, k2m.s7_s8_merge_sets, k5.o1_recovery_order, k2m.p4_merge_per_entry_order],
         "exhaustive": True,
         "decides": "exhaustively over every call site: the only write-capable open is create_new+append; no truncate/rename/set_len/pwrite/MmapMut/seek-on-writer; unlink only in merge on store file names; reopen never opens an old file for writing; a rollover test follows every append; merge rotates the active id above its outputs",
         "not_decided": "'greater than every id the directory has ever contained' (arithmetic over histories)",
@@ -141,7 +141,7 @@ PROPS = {
     },
     "C16": {
         "title": "Graceful shutdown terminates, keeps acknowledged data, and tears no reply",
-        "rules": [k2s.p9_server_shutdown_handshake, k2s.p12_handler_loop, k4.v3_read_frame_eof, k2s.p10_accept_loop, k4.v6_write_frame_flushes, k8.p20_shutdown_helper],
+        "rules": [k2s.p9_server_shutdown_handshake, k2s.p12_handler_loop, k4.v3_read_frame_eof, k2s.p10_accept_loop, k4.v6_write_frame_flushes, k8.p20_shutdown_helper, k8.p10b_accept_backoff],
         "decides": "run(): notify, drop own completion sender, then wait, on every path; reading is raced with shutdown, applying a command is not; EOF mid-frame is an error path; every handler holds a completion sender and a subscription; replies are flushed",
         "not_decided": "bounded time; a client that never reads its replies",
     },
